@@ -258,14 +258,39 @@ Definition fe_scatter (map : nat -> nat) (x : nat -> Z) := (fun i : nat => Some 
 Section Reduce.
   Context {T : Type}.
   Variable f : T -> T -> T.
-  (* manifold::reduce(Par, xs, init, f): tbb::parallel_reduce(range, init,
-     [](range, value){ return std::reduce(range, value, f); }, f)
-     lambda form: the split body starts from the *identity argument*, which is init *)
+  (* manifold::reduce(Par, xs, init, f) (after fix fc899df2):
+       partial = tbb::parallel_reduce(range, std::optional<T>(),
+           [](range, value){ i = begin; if (!value && i != end) value = *i++;
+                             if (value) value = std::reduce(i, end, *value, f); return value; },
+           [](a, b){ if (a && b) return f( *a, *b); return a ? a : b; });
+       return partial ? f(init, *partial) : init;
+     lambda form: a split body starts from the identity argument = the empty optional *)
+  Definition ofold (v : option T) (blk : list T) : option T :=
+    match v with
+    | Some a => Some (fold_left f blk a)
+    | None => match blk with [] => None | x :: r => Some (fold_left f r x) end
+    end.
+  Definition ojoin (a b : option T) : option T :=
+    match a, b with
+    | Some x, Some y => Some (f x y)
+    | Some _, None => a
+    | None, _ => b
+    end.
   Definition reduce_par (xs : list T) (init : T) (t : rtree) : T :=
+    match reduce_top (fun _ => None)
+                     (fun lo hi v => ofold v (firstn (hi - lo) (skipn lo xs)))
+                     ojoin (length xs) t None with
+    | Some p => f init p
+    | None => init
+    end.
+  Definition reduce_seq (xs : list T) (init : T) : T := fold_left f xs init.
+
+  (* the body before fix fc899df2 (kept for the historical counterexample only):
+     parallel_reduce(range, init, [](range, value){ return std::reduce(range, value, f); }, f) *)
+  Definition reduce_par_before_fix (xs : list T) (init : T) (t : rtree) : T :=
     reduce_top (fun _ => init)
                (fun lo hi v => fold_left f (firstn (hi - lo) (skipn lo xs)) v)
                f (length xs) t init.
-  Definition reduce_seq (xs : list T) (init : T) : T := fold_left f xs init.
 End Reduce.
 
 (* transform_reduce = reduce over the TransformIterator; count_if = reduce(plus, 0) over pred *)
@@ -352,11 +377,14 @@ Definition copy_if_par {V} (d : V) (p : V -> bool) (xs : list V) (ops : list sca
 Definition remove_if_par {V} (d : V) (p : V -> bool) (xs : list V) (ops : list scan_op) : list V :=
   let '(k, o) := copy_if_par d (fun v => negb (p v)) xs ops (fun _ => d) in map o (seq 0 k).
 
-(* unique(Par): chunks of at most maxbuf elements; per chunk
-     tmp := chunk; *first = *newSrcStart; CopyIfScanBody(pred i := tmp[i] != tmp[i+1], tmp+1, first+1)
-     over range(0, length-1); first += sum + 1.
-   [scheds] gives the op list of each chunk's parallel_scan. *)
-Fixpoint unique_chunks (fuel maxbuf : nat) (scheds : list (list scan_op)) (src : list Z)
+(* unique(Par) (after fix 8dafdd9e): chunks of at most maxbuf elements; per chunk
+     tmp := chunk;
+     if (newSrcStart != srcBegin && !( *(first-1) != tmp[0])) --first;   (a run continues from the previous chunk)
+     *first = tmp[0];
+     CopyIfScanBody(pred i := tmp[i] != tmp[i+1], tmp+1, first+1) over range(0, length-1); first += sum + 1.
+   [scheds] gives the op list of each chunk's parallel_scan.  The array is
+   rewritten in place: reads of later chunks are at positions >= first. *)
+Fixpoint unique_chunks (fuel maxbuf : nat) (scheds : list (list scan_op)) (started : bool) (src : list Z)
          (out : nat -> Z) (first : nat) : option ((nat -> Z) * nat) :=
   match fuel with
   | O => None
@@ -367,24 +395,33 @@ Fixpoint unique_chunks (fuel maxbuf : nat) (scheds : list (list scan_op)) (src :
       let len := Nat.min maxbuf (length src) in
       let tmp := firstn len src in
       let ops := hd [] scheds in
-      let out1 := upd first x0 out in
+      let first' := if started && Z.eqb (out (first - 1)) x0 then first - 1 else first in
+      let out1 := upd first' x0 out in
       let '(sum, out2) :=
         copy_if_body_par (fun i => negb (Z.eqb (nth i tmp 0%Z) (nth (S i) tmp 0%Z)))
                          (fun i => nth (S i) tmp 0%Z)
-                         ops (fun q => out1 (first + 1 + q)) in
+                         ops (fun q => out1 (first' + 1 + q)) in
       (* the body writes through the pointer first+1: re-base *)
-      let out3 := fun q => if q <? first + 1 then out1 q else out2 (q - (first + 1)) in
+      let out3 := fun q => if q <? first' + 1 then out1 q else out2 (q - (first' + 1)) in
       if len =? 0 then None
-      else unique_chunks fu maxbuf (tl scheds) (skipn len src) out3 (first + sum + 1)
+      else unique_chunks fu maxbuf (tl scheds) true (skipn len src) out3 (first' + sum + 1)
     end
   end.
 Definition unique_par (maxbuf : nat) (scheds : list (list scan_op)) (src : list Z) : option (list Z) :=
   match src with
   | [] => Some []            (* first == last: std::unique *)
-  | _ => match unique_chunks (S (length src)) maxbuf scheds src (fun _ => 0%Z) 0 with
+  | _ => match unique_chunks (S (length src)) maxbuf scheds false src (fun _ => 0%Z) 0 with
          | Some (o, k) => Some (map o (seq 0 k))
          | None => None
          end
+  end.
+(* every chunk's parallel_scan (over length-1 indices) runs under a legal schedule *)
+Fixpoint scheds_legal (fuel maxbuf n : nat) (scheds : list (list scan_op)) : Prop :=
+  match fuel with
+  | O => True
+  | S fu => if n =? 0 then True
+            else let len := Nat.min maxbuf n in
+                 legal_scan (len - 1) (hd [] scheds) = true /\ scheds_legal fu maxbuf (n - len) (tl scheds)
   end.
 (* std::unique *)
 Fixpoint dedup (l : list Z) : list Z :=
